@@ -132,4 +132,3 @@ func refCmp(recv string, a, b int64) (bool, bool, int) {
 	}
 	panic("refCmp: " + recv)
 }
-
